@@ -238,6 +238,18 @@ def shape_search(r, rnd, dates, n_random):
             vals = [float(piecewise_polynomial(float(x), thresholds=fthr, rates=frates,
                                                intercepts_at_lower_thresholds=fic)) for x in grid]
             r.case({"shape": [g, p, d.isoformat()], "n": len(grid)})
+            # the float evaluator returns the mathematical value of the schedule IT WAS GIVEN (its float coefficients
+            # read as exact rationals), at every point incl. the neighbours of the thresholds
+            vex = {"thresholds": [Fraction(float(t)) if math.isfinite(t) else float(t) for t in fthr],
+                   "rates": [[Fraction(float(c)) for c in row] for row in frates],
+                   "intercepts_at_lower_thresholds": [Fraction(float(c)) for c in fic]}
+            for x, val in zip(grid, vals):
+                exact = float(independent_value(vex, Fraction(float(x))))
+                if abs(val - exact) > 1e-9 * max(1.0, abs(exact)):
+                    r.hit({"schedule": f"{g}.{p}", "kind": "value-is-not-the-schedule"},
+                          f"{g}.{p} at {d}: piecewise_polynomial({float(x)!r}) = {val!r}, the schedule's value there is {exact!r}",
+                          {"date": d.isoformat(), "x": str(x), "observed": val, "expected": exact})
+                    break
             top = float(frates[0][-1])
             first = min(float(t) for t in fthr if math.isfinite(t)) if any(math.isfinite(t) for t in fthr) else None
             for x, val in zip(grid, vals):
